@@ -2,6 +2,7 @@
 import ast, z3
 from . import front
 from .vals import *
+from .vals import arr_at, arr_nan, arr_len
 from .engine import Unsupported, PyRaise, Frame, class_table, is_subclass, _not, _and, _or, _cmp
 
 pow_ = z3.Function("pow", RealS, RealS, RealS)
@@ -70,6 +71,8 @@ def getattr_value(I, o, attr):
         if attr in ("static_hashing", "make_events", "verify"):
             return BoundMethod(o, attr)
         raise Unsupported("contract attribute %s" % attr)
+    if isinstance(o, Obj) and o.kind == "seq" and attr == "shape":
+        return (In(I.heap[o.oid]["len"]),)
     if isinstance(o, Obj) and o.kind in ("map", "seq", "objmap"):
         return BoundMethod(o, attr)
     if isinstance(o, SuperRef):
@@ -150,6 +153,9 @@ def contains(I, container, item):
         if resolve_method(container.cls, "__contains__") or resolve_method(container.cls, "contains"):
             name = "__contains__" if resolve_method(container.cls, "__contains__") else "contains"
             return I.call_repo(container.cls, name, container, [item])
+        mm = I.registry.get("method:%s.contains" % container.cls)
+        if mm is not None:
+            return mm(I, [container, item], {})
     if isinstance(container, (list, tuple)):
         res = False
         for x in container:
@@ -164,11 +170,19 @@ def slice_value(I, o, sl):
     raise Unsupported("slice of %r" % (o,))
 
 
+def _is_arr(I, x):
+    return isinstance(x, Obj) and x.kind == "seq" and "at" in I.heap[x.oid]
+
+
 def compare_value(I, op, a, b):
+    if _is_arr(I, a) or _is_arr(I, b):
+        return seq_elementwise(I, a, b, lambda x, y: tobool(I.compare(op, x, y)), "comparison")
     raise Unsupported("comparison of %r and %r" % (a, b))
 
 
 def binop_value(I, op, a, b):
+    if _is_arr(I, a) or _is_arr(I, b):
+        return seq_elementwise(I, a, b, lambda x, y: I.binop(op, x, y), "arithmetic")
     raise Unsupported("binary operation on %r and %r" % (a, b))
 
 
@@ -394,6 +408,19 @@ def call_builtin(I, name, args, kwargs):
     if name in ("np.clip", "numpy.clip"):
         a, lo, hi = lift_fl(args[0]), lift_fl(args[1]), lift_fl(args[2])
         return Fl(z3.If(a.v < lo.v, lo.v, z3.If(a.v > hi.v, hi.v, a.v)), a.nan)
+    if name in ("np.all", "numpy.all"):
+        a = args[0]
+        if isinstance(a, bool) or is_symbool(a):
+            return a
+        if _is_arr(I, a):
+            p = I.heap[a.oid]
+            return forall_index(I, "all#%d" % a.oid, z3.IntVal(0), p["len"], lambda i: tobool(p["at"](i)))
+        raise Unsupported("np.all(%r)" % (a,))
+    if name in ("np.asarray", "numpy.asarray", "np.array", "numpy.array"):
+        a = args[0]
+        if _is_arr(I, a):
+            return a
+        raise Unsupported("np.asarray(%r)" % (a,))
     if name == "type":
         a = args[0]
         if isinstance(a, Obj) and a.kind == "rec":
@@ -447,6 +474,74 @@ def isinstance_(I, x, c):
     raise Unsupported("isinstance(%r, %s)" % (x, cname))
 
 
+# ------------------------------------------------------------------------------ symbolic-length sequences
+def sym_seq(I, at, length, pytype="list", maxlen=None):
+    """a sequence of symbolic length: at(i: Int term) -> value, len: Int term"""
+    return I.new_obj("seq", pytype, {"at": at, "len": length, "pytype": pytype, "maxlen": maxlen})
+
+
+def act_array(I, t):
+    """the 1-D float array denoted by an opaque action term (cached per term)"""
+    cache = I.__dict__.setdefault("_act_arrays", {})
+    key = t.get_id()
+    if key not in cache:
+        o = sym_seq(I, lambda i, t=t: Fl(arr_at(t, i), arr_nan(t, i)), arr_len(t), "ndarray")
+        I.heap[o.oid]["act"] = t
+        I.assume(arr_len(t) >= 0)
+        cache[key] = (o, t)
+    return cache[key][0]
+
+
+class MatV:
+    """a 2-D table of floats (sequence of equally long rows), e.g. DiscretePortfolio._allocations"""
+
+    def __init__(self, nrows, ncols, at):
+        self.nrows, self.ncols, self.at = nrows, ncols, at
+
+    def py_getitem(self, I, k):
+        if not isinstance(k, In):
+            if isinstance(k, Fl):
+                raise PyRaise("TypeError", "list indices must be integers")
+            raise Unsupported("table index %r" % (k,))
+        idx = z3.If(k.v < 0, k.v + self.nrows, k.v)
+        if not I.branch(z3.And(idx >= 0, idx < self.nrows)):
+            raise PyRaise("IndexError", "table index")
+        return sym_seq(I, lambda j, idx=idx: self.at(idx, j), self.ncols, "list")
+
+
+def forall_index(I, name, lo, hi, pred):
+    """a Bool equivalent to  forall i in [lo,hi). pred(i)  (definitional; queries stay quantifier free)"""
+    cache = I.__dict__.setdefault("_foralls", {})
+    if name in cache:
+        return cache[name]
+    b = z3.Bool("ALL[%s]" % name)
+    w = I.idx("cex[%s]" % name)
+    cache[name] = b
+    I.assume(z3.Implies(z3.Not(b), z3.And(lo <= w, w < hi, z3.Not(pred(w)))))
+    I.assume_pwi(lambda i: z3.Implies(z3.And(b, lo <= i, i < hi), pred(i)))
+    return b
+
+
+def seq_elementwise(I, a, b, fn, what):
+    """numpy broadcasting of a binary operation over 1-D arrays / scalars"""
+    pa = I.heap[a.oid] if isinstance(a, Obj) else None
+    pb = I.heap[b.oid] if isinstance(b, Obj) else None
+    if pa is not None and "at" not in pa or pb is not None and "at" not in pb:
+        raise Unsupported("elementwise %s on a concrete list" % what)
+    if pa is not None and pb is not None:
+        if not I.branch(pa["len"] == pb["len"]):
+            raise PyRaise("ValueError", "operands could not be broadcast together")
+        n = pa["len"]
+        at = lambda i: fn(pa["at"](i), pb["at"](i))
+    elif pa is not None:
+        n = pa["len"]
+        at = lambda i: fn(pa["at"](i), b)
+    else:
+        n = pb["len"]
+        at = lambda i: fn(a, pb["at"](i))
+    return sym_seq(I, at, n, "ndarray")
+
+
 # ------------------------------------------------------------------------------ sequences (lists, deques, arrays)
 def new_seq(I, items, pytype="list"):
     """a sequence with a concrete list of (symbolic) items"""
@@ -464,7 +559,8 @@ def seq_getitem(I, o, k):
             raise PyRaise("IndexError", "seq index")
     if "at" in p and isinstance(k, In):
         n = p["len"]
-        idx = z3.If(k.v < 0, k.v + n, k.v)
+        idx = z3.simplify(z3.If(k.v < 0, k.v + n, k.v))
+        I.add_idx(idx)
         if not I.branch(z3.And(idx >= 0, idx < n)):
             raise PyRaise("IndexError", "seq index")
         return p["at"](idx)
@@ -481,6 +577,37 @@ def seq_slice(I, o, sl):
 
 def seq_method(I, o, name, args, kwargs):
     p = I.heap[o.oid]
+    if "at" in p:
+        at, n = p["at"], p["len"]
+        if name == "appendleft":
+            v = args[0]
+            p["at"] = lambda i, at=at, v=v: vite(i == 0, v, at(i - 1))
+            p["len"] = n + 1
+            if p.get("maxlen") is not None:
+                if I.branch(n + 1 > p["maxlen"]):
+                    p["len"] = n                       # deque(maxlen): the rightmost element is discarded
+                    I.trace.append(("deque_evict", "right"))
+            I.wrote(o.oid, "items")
+            return None
+        if name == "append":
+            v = args[0]
+            p["at"] = lambda i, at=at, v=v, n=n: vite(i == n, v, at(i))
+            p["len"] = n + 1
+            if p.get("maxlen") is not None:
+                if I.branch(n + 1 > p["maxlen"]):
+                    p["at"] = lambda i, f=p["at"]: f(i + 1)
+                    p["len"] = n
+                    I.trace.append(("deque_evict", "left"))
+            I.wrote(o.oid, "items")
+            return None
+        if name == "pop" and not args:
+            if not I.branch(n > 0):
+                raise PyRaise("IndexError", "pop from an empty deque")
+            v = at(n - 1)
+            p["len"] = n - 1
+            I.wrote(o.oid, "items")
+            return v
+        raise Unsupported("sequence method %s on a symbolic sequence" % name)
     if "items" in p:
         if name == "append":
             p["items"] = p["items"] + [args[0]]
